@@ -275,18 +275,39 @@ func c11r1(c *core.Ctx) {
 	if zeroRange != nil {
 		f := zeroRange
 		okLoop := false
+		// a loop over exactly `len` iterations (range over the count, or a classic loop from 0 below it) whose body
+		// has no branching: every requested row is zeroed
+		lenPar2 := f.Sig.Params().At(1)
+		unconditional := func(body *ast.BlockStmt) bool {
+			cond := false
+			ast.Inspect(body, func(x ast.Node) bool {
+				switch x.(type) {
+				case *ast.IfStmt, *ast.BranchStmt, *ast.SwitchStmt:
+					cond = true
+				}
+				return true
+			})
+			return !cond
+		}
 		core.InspectNoLits(f.Body, func(n ast.Node) bool {
-			if rs, isR := n.(*ast.RangeStmt); isR {
-				if id, isID := ast.Unparen(rs.X).(*ast.Ident); isID && m.Info.ObjectOf(id) == f.Sig.Params().At(1) {
-					cond := false
-					ast.Inspect(rs.Body, func(x ast.Node) bool {
-						switch x.(type) {
-						case *ast.IfStmt, *ast.BranchStmt:
-							cond = true
-						}
-						return true
-					})
-					okLoop = !cond
+			switch l := n.(type) {
+			case *ast.RangeStmt:
+				if id, isID := ast.Unparen(m.StripConv(l.X)).(*ast.Ident); isID && m.Info.ObjectOf(id) == lenPar2 {
+					okLoop = unconditional(l.Body)
+				}
+			case *ast.ForStmt:
+				as, isAs := l.Init.(*ast.AssignStmt)
+				be, isB := ast.Unparen(l.Cond).(*ast.BinaryExpr)
+				inc, isInc := l.Post.(*ast.IncDecStmt)
+				if !isAs || !isB || !isInc || len(as.Lhs) != 1 || len(as.Rhs) != 1 || inc.Tok != token.INC || be.Op != token.LSS {
+					return true
+				}
+				iv, isID := as.Lhs[0].(*ast.Ident)
+				if !isID || !isZeroLit(m, m.StripConv(as.Rhs[0])) || !isIdentOf(m, be.X, m.Info.ObjectOf(iv)) || !isIdentOf(m, inc.X, m.Info.ObjectOf(iv)) {
+					return true
+				}
+				if id, isID := ast.Unparen(m.StripConv(be.Y)).(*ast.Ident); isID && m.Info.ObjectOf(id) == lenPar2 {
+					okLoop = unconditional(l.Body)
 				}
 			}
 			return true
